@@ -3,11 +3,13 @@ package full
 import (
 	"fmt"
 	"strings"
+	"sync/atomic"
 	"testing"
 	"testing/synctest"
 	"time"
 
 	simplefixgo "github.com/b2broker/simplefix-go"
+	"github.com/b2broker/simplefix-go/fix"
 	"github.com/b2broker/simplefix-go/storages/memory"
 	"pgregory.net/rapid"
 
@@ -164,4 +166,160 @@ func TestC14Transport(t *testing.T) {
 	outerT = t
 	rec := evid.New("C14/transport")
 	pbt.Run(t, "C14", rec, genC14Transport, checkC14Transport)
+}
+
+// ---------- C14 with several connections served from one session.Opts ----------
+//
+// An acceptor application builds its session.Opts once and creates the session
+// of every connection from it, so the message builders inside are shared by all
+// sessions. Each peer must get back its own TestReqID whatever the other
+// sessions answer meanwhile. The schedule is owned by the harness: the message
+// store of one connection holds back the Save of that connection's answer until
+// the other connections' requests have been answered (a store with latency),
+// then lets it go.
+
+type C14SharedCase struct {
+	Buf   int        `json:"buf"`
+	Conns int        `json:"conns"` // 2-3 connections
+	Held  int        `json:"held"`  // the connection whose answer is held back inside its store
+	IDs   [][]string `json:"ids"`   // per connection: TestReqIDs sent while the held answer is pending (the held connection's first ID is the pending one)
+}
+
+func genC14Shared(t *rapid.T) *C14SharedCase {
+	c := &C14SharedCase{Buf: rapid.SampledFrom([]int{0, 1, 10}).Draw(t, "buf"), Conns: rapid.IntRange(2, 3).Draw(t, "conns")}
+	c.Held = rapid.IntRange(0, c.Conns-1).Draw(t, "held")
+	for i := 0; i < c.Conns; i++ {
+		var ids []string
+		n := rapid.IntRange(0, 3).Draw(t, "nIDs")
+		if i == c.Held {
+			n = 1
+		}
+		for k := 0; k < n; k++ {
+			ids = append(ids, fmt.Sprintf("c%d-%s", i, rapid.StringMatching(`[A-Za-z0-9]{1,12}`).Draw(t, "id")))
+		}
+		c.IDs = append(c.IDs, ids)
+	}
+	return c
+}
+
+// heldStore holds the first Save of a Heartbeat that answers a TestRequest until released.
+type heldStore struct {
+	*memory.Storage
+	hold    bool
+	release chan struct{}
+	entered chan struct{}
+}
+
+func (s *heldStore) Save(id fix.StorageID, msg simplefixgo.SendingMessage, seq int) error {
+	if s.hold && msg.MsgType() == rig.THeartbeat {
+		s.hold = false
+		close(s.entered)
+		<-s.release
+	}
+	return s.Storage.Save(id, msg, seq)
+}
+
+func checkC14Shared(c *C14SharedCase, rec *evid.Rec) (vs []pbt.Violation) {
+	done := pbt.Watch("C14", "TestC14Shared", c)
+	defer done()
+	streams := make([][]byte, c.Conns)
+	heldPending := false
+	_, trouble := rig.Bubble(outerT, func() {
+		cfg := rig.Cfg{Role: "acceptor", HBMin: 1, HBMax: 60, HBInt: 30, Methods: []string{"0"}, Approve: "all", CloseTimeoutMs: 100, Buf: c.Buf,
+			Sender: "LIB", Target: "PEER", User: "alice", Pass: "secret"}
+		opts := rig.OptsFor(cfg) // ONE options object for every session
+		stores := make([]*heldStore, c.Conns)
+		var next atomic.Int32
+		ar := rig.StartAcceptor(c.Buf, time.Minute, func(h simplefixgo.AcceptorHandler) {
+			i := int(next.Add(1)) - 1
+			stores[i] = &heldStore{Storage: memory.NewStorage(), release: make(chan struct{}), entered: make(chan struct{})}
+			if _, err := rig.AcceptorSessionOpts(opts, cfg, h, stores[i], stores[i]); err != nil {
+				panic(err)
+			}
+		})
+		conns := make([]*netsim.Conn, c.Conns)
+		seqs := make([]int, c.Conns)
+		for i := range conns {
+			conns[i] = netsim.NewConn(fmt.Sprint(i))
+			ar.L.Connect(conns[i])
+			synctest.Wait() // accepted in this order
+			seqs[i] = 1
+			conns[i].Feed((&rig.InMsg{Type: rig.TLogon, Seq: "1", Sender: fmt.Sprintf("PEER%d", i), Target: "LIB", Fields: []rig.Tok{rig.F(rig.TagEncryptMethod, "0"), rig.F(rig.TagHeartBtInt, "30"),
+				rig.F(rig.TagUsername, "alice"), rig.F(rig.TagPassword, "secret")}}).Bytes())
+			synctest.Wait()
+		}
+		testReq := func(i int, id string) {
+			seqs[i]++
+			conns[i].Feed((&rig.InMsg{Type: rig.TTestRequest, Seq: fmt.Sprint(seqs[i]), Sender: fmt.Sprintf("PEER%d", i), Target: "LIB", Fields: []rig.Tok{rig.F(rig.TagTestReqID, id)}}).Bytes())
+		}
+		// the held connection's request: its answer gets stuck inside its store
+		stores[c.Held].hold = true
+		testReq(c.Held, c.IDs[c.Held][0])
+		synctest.Wait()
+		select {
+		case <-stores[c.Held].entered:
+			heldPending = true
+		default:
+		}
+		// meanwhile the other connections are served
+		for i := range conns {
+			if i == c.Held {
+				continue
+			}
+			for _, id := range c.IDs[i] {
+				testReq(i, id)
+				synctest.Wait()
+			}
+		}
+		close(stores[c.Held].release)
+		synctest.Wait()
+		for i := range conns {
+			streams[i] = conns[i].Stream()
+			conns[i].PeerClose()
+		}
+		synctest.Wait()
+		ar.A.Close()
+		time.Sleep(rig.Settle(30))
+	})
+	if trouble != "" {
+		return []pbt.Violation{pbt.V("harness", "%s", trouble)}
+	}
+	others := 0
+	for i := 0; i < c.Conns; i++ {
+		msgs, _ := ref.Split(streams[i], "10")
+		var echoed []string
+		for _, m := range msgs {
+			o := rig.Decode(m)
+			if o.Type == rig.THeartbeat {
+				if id, ok := o.Get(rig.TagTestReqID); ok {
+					echoed = append(echoed, id)
+				}
+				if tgt, _ := o.Get(rig.TagTargetCompID); tgt != fmt.Sprintf("PEER%d", i) {
+					vs = append(vs, pbt.V("shared:foreign-heartbeat", "connection %d received a Heartbeat addressed to %q: %s", i, tgt, o.String()))
+				}
+			}
+		}
+		if i != c.Held {
+			others += len(c.IDs[i])
+		}
+		if fmt.Sprint(echoed) != fmt.Sprint(c.IDs[i]) && len(vs) == 0 {
+			vs = append(vs, pbt.V("shared:echo-differs", "connection %d of %d (sessions built from one session.Opts; the answer of connection %d was held back in its store meanwhile): TestReqIDs sent %v, Heartbeats came back with %v", i, c.Conns, c.Held, c.IDs[i], echoed))
+		}
+	}
+	nontrivial := heldPending && others >= 1
+	rec.Case(evid.FPs(fmt.Sprint(c.Buf, c.Conns, c.Held, c.IDs)), nontrivial)
+	rec.Hist("shared-opts:engine")
+	if nontrivial {
+		rec.Hist("shared-opts:answer-pending-while-another-session-answers")
+	}
+	if rec.WantSample() && nontrivial {
+		rec.Sample(map[string]any{"engine": "several sessions from one session.Opts", "connections": c.Conns, "held": c.Held, "ids": c.IDs})
+	}
+	return vs
+}
+
+func TestC14Shared(t *testing.T) {
+	outerT = t
+	rec := evid.New("C14/shared")
+	pbt.Run(t, "C14", rec, genC14Shared, checkC14Shared)
 }
